@@ -9,6 +9,18 @@ Library level (in-process `whatshap.core.GenotypeDPTable`):
     with the model's per-column scaling divisors set to 1 and to random positive numbers – relative tolerance
     1e-9.  THIS IS THE ONE PLACE WHERE FLOATS ARE COMPARED WITH A TOLERANCE (implementation: long double with
     data dependent scaling, model: IEEE double, different summation order).
+  * EXACT cross-check (no float on the reference side): instances whose phred qualities and recombination costs are
+    multiples of 10 (then 10^(-q/10) is rational; priors are doubles = dyadic rationals; the table entry for quality 0 is the
+    double 0.9999) are evaluated by the Lean model over `Rat` (`c08.fbrat`, = the brute-force posterior by theorem; the plain
+    enumeration is evaluated too on the smallest and must give the identical rationals); the implementation's doubles must be
+    within relative 1e-12 (+1e-300 absolute) of the exact value.  Measured: 1.1e-16 (half an ulp).
+  * writer level: `GenotypeVcfWriter.write_genotypes` in-process on crafted likelihood triples (normalised, peaked down to
+    5e-324, zeros, next to GQ rounding boundaries, not normalised) with genotypes from the real `determine_genotype` at phred
+    thresholds 0..150: written GT = determined genotype; GL = log10 (floor -1000, also for 0) to 6 significant digits and
+    bit-equal to `c08.conv` (`glOf Float.log10`); GQ = min(round(-10·log10(mass of the others)), 10000) decided EXACTLY
+    (60-digit decimals as oracle, the Lean integer search `gqOf` on the rational value of the double as model; masses within
+    1e-9 of a rounding tie are skipped and counted), 10000 for mass 0, none for ./.; a call at phred threshold t has GQ >= t;
+    the exact threshold test `aboveThr` of the model = the float test of `determine_genotype` away from the boundary.
   * `determine_genotype` (real function) on the implementation's likelihoods and on tie/threshold edge triples:
     result = unique maximum if it exceeds the threshold, else no call; against `c08.call`.
 Pipeline level (`whatshap genotype` CLI on simulated BAM/VCF, several --gt-qual-threshold values, with and
@@ -29,13 +41,19 @@ RULE = ("well-formed instances (sorted reads with >= 2 variants each, 0/1 allele
 MANIFEST = dict(
     text="Lean 4: model of the scaled forward-backward table over projected bipartition columns (polymorphic in the number "
          "field, arbitrary non-zero per-column scaling divisors) proved equal to the brute-force posterior of the HMM, "
-         "independent of the scalings, normalised; GT = unique maximum above threshold, GQ mass = 1 - called posterior. "
+         "independent of the scalings (scaled tables = unscaled × explicit product of the inverse scaling factors), normalised; "
+         "GT = unique maximum above threshold, GQ mass = 1 - called posterior; integer-side model of GQ (rounded phred of a rational "
+         "mass, cap, antitone, non-negative for a distribution), of the phred threshold (called => GQ >= threshold) and of GL "
+         "(monotone, floor, GT = argmax GL). "
          "Tied to the working tree by running GenotypeDPTable in-process against the compiled model in Float "
-         "(rel. tol. 1e-9), an independent numpy oracle and the Lean brute-force spec; the VCF contract of "
+         "(rel. tol. 1e-9), against the model over exact rationals (rel. tol. 1e-12, measured 1e-16), an independent numpy oracle and the "
+         "Lean brute-force spec; GenotypeVcfWriter on crafted triples against the exact integer GQ; the VCF contract of "
          "`whatshap genotype` (GL/GT/GQ) is checked on CLI runs across thresholds",
     design_ref="DESIGN.md §5 C08",
-    note="trusted: Lean kernel; hand-written model; floating-point rounding (long double vs double) within 1e-9 relative; "
-         "log10/rounding of GL/GQ are checked numerically only; Gray-code order, incremental cost updates and sqrt "
+    note="trusted: Lean kernel; hand-written model; the implementation's floating-point error is MEASURED against exact rational "
+         "arithmetic on instances with rational parameters (<= 1e-12 relative demanded), elsewhere compared with the Float model within "
+         "1e-9; GQ rounding is decided exactly on the rational value of the implementation's double, log10 of GL is compared as a float "
+         "(same libm) and to 6 digits in the VCF text; Gray-code order, incremental cost updates and sqrt "
          "check-pointing are covered by correspondence only",
     technique="Lean 4 proof (sum-product interface DP = enumeration, bijective gluing of sorted bipartitions) + numeric "
               "differential correspondence + CLI contract check",
@@ -44,7 +62,10 @@ ASSUMPTIONS = [
     "reads handed to GenotypeDPTable have >= 2 variants and the read set is sorted (a single-variant read trips a C++ "
     "assert and aborts the interpreter; `whatshap genotype` filters such reads) – generators never produce anything else",
     "priors are positive (a zero normalisation sum yields NaN in the code; the theorems carry `total ≠ 0`)",
-    "floats: implementation long double, model IEEE double; compared with relative tolerance 1e-9 (+1e-300 absolute)",
+    "floats: implementation long double, model IEEE double; compared with relative tolerance 1e-9 (+1e-300 absolute); against the "
+    "exact rational posterior with relative tolerance 1e-12 (+1e-300 absolute) on instances whose qualities / recombination costs "
+    "are multiples of 10 (pow(10, -k) in long double is taken as 10^-k: relative error 1e-19)",
+    "writer level: GQ ties (|frac(-10 log10 q) - 0.5| < 1e-9) are skipped; GL text carries 6 significant digits (relative 6e-6)",
     "VCF GL values carry 6 significant digits: |Σ10^GL − 1| ≤ 2e-5; GT/GQ decisions closer than the rounding margin to a "
     "tie/threshold/half-integer are counted as ambiguous, not checked",
 ]
